@@ -109,6 +109,12 @@ func (o *obs) keys() []string {
 	return out
 }
 
+// watchdog only separates "never returns" from "returns": it is far above any
+// stall a loaded machine can cause (a 30s limit produced false alarms at load
+// average > 100), and the tier deadline stops workers from starting new cases,
+// so a real deadlock costs each worker at most one such wait.
+const watchdog = 5 * time.Minute
+
 // execute runs one operation on a fresh environment. In in-line mode every
 // fault point asks x.Choose when it is reached; in up-front mode (operations
 // whose nested statements are issued in map order) the faults are chosen before
@@ -122,7 +128,7 @@ func execute(op opcat.Op, dialect string, x *mc.Exec, upfront []string) *obs {
 	select {
 	case o := <-done:
 		return o
-	case <-time.After(30 * time.Second):
+	case <-time.After(watchdog):
 		return &obs{hung: true, fired: []string{"(unknown: execution hung)"}}
 	}
 }
@@ -386,7 +392,7 @@ type finding struct {
 
 func verdicts(b *baseline, o *obs) []finding {
 	if o.hung {
-		return []finding{{"hang", "the operation did not return within 30s (deadlock)"}}
+		return []finding{{"hang", "the operation did not return within 5 minutes (deadlock)"}}
 	}
 	if o.panicMsg != "" {
 		return []finding{{"panic", "panic inside gorm\n" + o.panicMsg}}
